@@ -2,9 +2,11 @@
 from props.C01 import ASSUMPTIONS as A01, TRUSTED as T01
 from props.mandoline_kernels import kernel_tasks, kernel_canaries
 
-ASSUMPTIONS = A01 + ["level loop / last-writer-wins overwrite of Mandoline.plate covered by the bounded run-time layer (R); the worker "
-                     "inputs (compute_mpinput_2d) and the box worker (plate_box) are under contract; plate_box: the number of "
-                     "requested fields is a skeleton parameter (1, 2+None, 0+None)"]
+ASSUMPTIONS = A01 + ["Mandoline.plate is proved as a whole (callees by contract, nested loop invariants: after the painting loops every covered "
+                     "pixel holds the value of the LAST box in (level, input) order whose footprint contains it, i.e. a box of the "
+                     "finest level covering it) for one requested field, serial and pool mode; the worker inputs (compute_mpinput_2d) "
+                     "and the box worker (plate_box; number of requested fields a skeleton parameter: 1, 2+None, 0+None) are under "
+                     "contract; np.empty is unknown values with an 'initialised' bit"]
 TRUSTED = T01 + ["numpy: np.repeat / reshape contracts used by expand_array"]
 
 
@@ -13,7 +15,8 @@ def tasks(tier):
     from props.mandoline_boxes import box_tasks
     from props.mandoline_parents import names_tasks
     return kernel_tasks("C08", ["expand"]) + parent_tasks("C08", 2) + box_tasks("C08", ["plate"]) + names_tasks("C08") + \
-        __import__("props.mandoline_parents", fromlist=["aux_tasks"]).aux_tasks("C08")
+        __import__("props.mandoline_parents", fromlist=["aux_tasks"]).aux_tasks("C08") + \
+        __import__("props.mandoline_parents", fromlist=["composition_tasks"]).composition_tasks("C08", 2)
 
 
 def canaries(tier):
